@@ -381,6 +381,8 @@ def gen_hostile_ops(rng, subject_side, n, first_kind=None):
             elif k == "ack":
                 f["ranges"] = [[0, rng.choice([0, 3, 1000])]] if rng.random() < 0.5 else [[2, 3], [7, rng.choice([7, 90])]]
                 f["delay"] = rng.choice([0, 10, 1 << 40])
+                # ACK_ECN (0x03): aioquic never sends one, so only a hostile peer exercises the ECN counts
+                f["ecn"] = rng.choice([None, None, [0, 0, 0], [1, 0, 0], [5, 0, 0], [37, 2, 0], [1 << 20, 3, 1]])
             elif k == "padding":
                 f["n"] = rng.choice([1, 20, 600])
             ops.append({"op": "frames", "epoch": "1rtt", "frames": [f]})
@@ -458,7 +460,7 @@ def _mk_frame(F, f):
     if k == "crypto":
         return F.crypto(f["off"], bytes.fromhex(f["data"]))
     if k == "ack":
-        return F.ack([tuple(r) for r in f["ranges"]], delay=f.get("delay", 0))
+        return F.ack([tuple(r) for r in f["ranges"]], delay=f.get("delay", 0), ecn=tuple(f["ecn"]) if f.get("ecn") else None)
     if k == "padding":
         return F.padding(f.get("n", 1))
     if k == "truncated":
